@@ -65,7 +65,12 @@ CHECKS["C22"] = _c("role analysis of DiffSetRequest (argument-order-only A/B), p
 CHECKS["C25"] = _c("commutativity classification of every range-over-map body in the generator packages over an interprocedural mod-effect summary, frozen table of hand-reviewed loops, sorted-sink and ambient-state who-may-call checks",
     "Decides that every range over a map in ygen/gogen/protogen/ypathgen/genutil/generator has effects that commute across iterations or is one of the reviewed loops with exactly its reviewed order-sensitive effects, that unordered collections are sorted where they reach rendered output, and that no time/random/environment source is reachable from generation.")
 
-for _p in ["C15","C26","C27","C29","C33","C34"]:
+CHECKS["C15"] = _c("expansion of gogen's ordered-map templates (constants of the repo, expanded by the standard library's text/template over a frozen table of key shapes, never by repo code) followed by per-method effect/guard analysis of the residual Go code; ordered-traversal and reflective-name rules on internal/yreflect; diff equality guard",
+    "Decides, for 7 key shapes, that the generated Append/AppendNew reject nil and duplicate keys before writing and add one key/one entry built from the element's own key leaves, Delete removes from both or neither, the readers store nothing and return fresh slices in key order, the parent helpers create lazily and delegate faithfully; that the library reads ordered maps only in Keys() order; and that reflectively called methods exist with the checked arity.")
+CHECKS["C34"] = _c("expansion of gogen's keyed-list helper templates over a frozen table of key shapes (standard library text/template, no repo code run) followed by per-method effect/guard analysis of the residual Go code",
+    "Decides, for 7 key shapes, that New/Append reject duplicate (and nil) keys before writing, New's entry carries the key arguments, Append derives the key from the element, Get writes nothing and never creates, GetOrCreate creates only on a miss, Delete removes only the key, Rename validates first, sets every key leaf from newK in the right direction and moves the entry, and ΛListKeyMap covers every key.")
+
+for _p in ["C26","C27","C29","C33"]:
     NA[_p] = NOT_YET
 NA["C10"] = "quantifies over runtime trees, paths and payloads; its structural clauses (key and value tables) are decided under C16/C18 and the frame clause has no static handle here (DESIGN.md §7)"
 NA["C23"] = "classification of runtime leaves after single-leaf edits; no clause visible in code shape beyond those claimed under C22 (DESIGN.md §7)"
